@@ -787,16 +787,6 @@ class DatasetConstruct(Contract):
     def raises(self, S, case, env):
         return {IndexError: False}
 
-    def known_regions(self, S, case, env):
-        # recorded open finding: reindex_axis from an EMPTY axis onto a non-empty one raises IndexError (phrased over the
-        # common axis the callee returned, as in Align)
-        calls = S.calls("GetAlignedAxes")
-        if calls:
-            cx = [ax.values for ax in calls[-1][3] if ax.name == "x"]
-            if cx:
-                return {"empty-source-axis": S.land(S.n(cx[0]) > 0, S.lor(S.n(env["XA"]) == 0, S.n(env["XB"]) == 0))}
-        return {"empty-source-axis": (len(env["XA"]) == 0) != (len(env["XB"]) == 0)} if not hasattr(env["XA"], "buf") else {}
-
     def post(self, S, case, env, result):
         from .common import absent
         XA, XB, Y = env["XA"], env["XB"], env["Y"]
